@@ -1,6 +1,7 @@
 (* IEEE-754 binary64 arithmetic as Go's float64 on amd64: Coq primitive floats (hardware under vm_compute).
    Only what the decoder's component expansion and the byte->float fallbacks need. *)
 From Coq Require Import NArith ZArith List Bool Floats Uint63.
+From Fit Require Export Model.ConvModeT.
 Import ListNotations.
 Open Scope N_scope.
 
@@ -77,3 +78,22 @@ Definition f64_bits (f : float) : N :=
       (if 4503599627370496 <=? m then Z.to_N (e + 1075)%Z * 4503599627370496 + (m - 4503599627370496) else m)
   end.
 Definition f64_is_nan_bits (b : N) : bool := ((b / 4503599627370496) mod 2048 =? 2047) && negb (b mod 4503599627370496 =? 0).
+
+(* math.Round (half away from zero) followed by the integer reading, exact on the float's value *)
+Definition f64_round (f : float) : option Z :=
+  match Prim2SF f with
+  | S754_zero _ => Some 0%Z
+  | S754_finite s m e =>
+      let mag := if (0 <=? e)%Z then (Z.pos m * 2 ^ e)%Z
+                 else let d := (2 ^ (- e))%Z in
+                      let q := (Z.pos m / d)%Z in
+                      if (d <=? 2 * (Z.pos m mod d))%Z then (q + 1)%Z else q in
+      Some (if s then (- mag)%Z else mag)
+  | _ => None
+  end.
+Definition f64_to_Z (m : conv_mode) (f : float) : option Z := match m with Trunc => f64_trunc f | Round => f64_round f end.
+Definition f64_to_u32_mode (m : conv_mode) (f : float) : N :=
+  match f64_to_Z m f with
+  | Some z => if ((- 9223372036854775808 <=? z) && (z <? 9223372036854775808))%Z then Z.to_N (z mod 4294967296)%Z else 0
+  | None => 0
+  end.
